@@ -318,7 +318,13 @@ func decodeStructValueSlice(field reflect.Value, fieldType reflect.StructField, 
 		return nil
 	}
 
-	for _, el := range strings.Split(value, delim) {
+	els := strings.Split(value, delim)
+	if delim == " " {
+		/* a blank-separated list may be folded over several lines */
+		els = strings.Fields(value)
+	}
+
+	for _, el := range els {
 		el = strings.Trim(el, strip)
 
 		targetValue := reflect.New(underlyingType)
